@@ -123,7 +123,7 @@ use crate::memory::MemoryPermissions;
 use crate::Error;
 use std::collections::BTreeMap;
 
-broadcast use {axiom_into_string_str, axiom_string_key_obeys_cmp_spec};
+broadcast use axiom_into_string_str;
 
 //@ include units/C19/loader_types.rs
 //@ include units/C19/order_spec.rs
@@ -131,6 +131,7 @@ broadcast use {axiom_into_string_str, axiom_string_key_obeys_cmp_spec};
 //@ include units/C19/entries_spec.rs
 //@ include units/C19/symbols_spec.rs
 //@ include units/C19/elf.rs
+//@ include units/C19/clients.rs
 
 proof fn vf_canary_loader() ensures false {}
 } // mod loader
